@@ -34,11 +34,15 @@ def build(desc):
                                                            delete the decoy, add x   (stale caches, index re-use)
       {"phase_order": "comp_first" | "redefine"}           component phases before the system phases / system
                                                            phases defined twice with different names
+      {"bridge": {"child": name, "slot": k}}               the child's k-th parent link is first built through an
+                                                           ideal pass-through stage that is deleted at the end with
+                                                           del_childs=False (re-linking, PMux input bookkeeping)
     """
     comps = desc["comps"]
     plan = desc.get("_build") or {}
     det = plan.get("detour")
     order = plan.get("phase_order", "normal")
+    bridge = plan.get("bridge")
     sys = None
 
     def add(c):
@@ -54,7 +58,10 @@ def build(desc):
         elif c["kind"] == "source":
             sys.add_source(comp, **kw)
         else:
-            par = c["parents"]
+            par = list(c["parents"])
+            if bridge and bridge["child"] == c["name"]:
+                sys.add_comp(par[bridge["slot"]], comp=PSwitch("__bridge"))
+                par[bridge["slot"]] = "__bridge"
             sys.add_comp(par if (len(par) > 1 or c.get("plist")) else par[0], comp=comp, **kw)
 
     def comp_phases(cs):
@@ -84,6 +91,8 @@ def build(desc):
             x = [c for c in comps if c["name"] == det["x"]][0]
             add(x)
             comp_phases([x])
+        if bridge:
+            sys.del_comp("__bridge", del_childs=False)
     return sys
 
 
@@ -225,6 +234,27 @@ def quiet_call(f, *a, **k):
                 return f(*a, **k), None
             except Exception as e:  # noqa
                 return None, e
+
+
+class HarnessTimeout(Exception):
+    """a library call did not return within the watchdog time (a non-terminating loop is a finding, not a hang)"""
+
+
+def quiet_call_timeout(seconds, f, *a, **k):
+    """quiet_call under a SIGALRM watchdog; returns (result, exception) with HarnessTimeout on expiry"""
+    import signal
+
+    def on_alarm(signum, frame):
+        raise HarnessTimeout("no return within %d s" % seconds)
+    old = signal.signal(signal.SIGALRM, on_alarm)
+    signal.alarm(int(seconds))
+    try:
+        return quiet_call(f, *a, **k)
+    except HarnessTimeout as e:          # raised outside quiet_call's own try block
+        return None, e
+    finally:
+        signal.alarm(0)
+        signal.signal(signal.SIGALRM, old)
 
 
 def obs_vectors(desc, obs):
